@@ -304,11 +304,9 @@ def run_harness(h, tier, timeout_default, mem_default):
 			h.unwindset_resolved = ids
 			log.flush()
 		cmd = kani_cmd(h)
-		wrapped = f"ulimit -v {int(mem_gb * 1024 * 1024)}; exec timeout -k 5 {int(timeout)} " + " ".join(_q(c) for c in cmd)
-		log.write(f"[vlib] {wrapped}\n")
+		log.write(f"[vlib] {' '.join(_q(c) for c in cmd)}\n")
 		log.flush()
-		p = subprocess.run(["bash", "-c", wrapped], cwd=WS, env=ENV, stdout=log, stderr=subprocess.STDOUT)
-		rc = p.returncode
+		rc = run_limited(cmd, WS, log, timeout, mem_gb)
 	res.wall_s = time.time() - t0
 	text = _read_tail(logp)
 	parse_log(text, res)
@@ -317,6 +315,28 @@ def run_harness(h, tier, timeout_default, mem_default):
 	if rc == 124 and res.status == "inconclusive":
 		res.reason = f"timeout after {timeout}s"
 	return res
+
+
+def run_limited(cmd, cwd, log, timeout, mem_gb):
+	"""Run cmd in its own session under an address-space limit; on timeout kill the whole process group (cbmc included)."""
+	import resource
+	import signal
+
+	def pre():
+		os.setsid()
+		lim = int(mem_gb * 1024 ** 3)
+		resource.setrlimit(resource.RLIMIT_AS, (lim, lim))
+
+	p = subprocess.Popen(cmd, cwd=cwd, env=ENV, stdout=log, stderr=subprocess.STDOUT, preexec_fn=pre)
+	try:
+		return p.wait(timeout=timeout)
+	except subprocess.TimeoutExpired:
+		try:
+			os.killpg(p.pid, signal.SIGKILL)
+		except ProcessLookupError:
+			pass
+		p.wait()
+		return 124
 
 
 def _read_tail(p, limit=64 * 1024 * 1024):
